@@ -291,9 +291,12 @@ class ChildrenList(list):
         :type item: :py:class:`psyclone.psyir.nodes.Node`
 
         '''
-        for position in range(self.index(item) + 1, len(self)):
+        index = self.index(item)
+        for position in range(index + 1, len(self)):
             self._validate_item(position - 1, self[position])
-        self._del_parent_link(item)
+        # Unlink the node that is actually removed (the first one that
+        # compares equal to 'item').
+        self._del_parent_link(self[index])
         super().remove(item)
         self._node_reference.update_signal()
 
